@@ -255,12 +255,26 @@ Proof.
   - apply safe_bind; [apply key_new_safe|]. intros [k|] _; exact I.
 Qed.
 
-Lemma parse_step_safe value : (length value <= bound)%nat -> safe (parse_step idc json_args true new value).
+Lemma parse_chain_safe value : (length value <= bound)%nat -> safe (parse_chain idc json_args true new value).
 Proof.
-  intros Hb. unfold parse_step.
+  intros Hb. unfold parse_chain.
   apply safe_bind; [apply find_foreign_key_safe; exact Hb|]. intros [v|] _; [exact I|].
   apply safe_bind; [apply find_component_safe; exact Hb|]. intros [v|] _; [exact I|].
   apply safe_bind; [apply find_variable_safe; exact Hb|]. intros [v|] _; exact I.
+Qed.
+
+Lemma comp_first_safe value : safe (comp_first idc true value).
+Proof.
+  unfold comp_first. destruct (split_once s_fk value) as [[fkb rest]|]; [|exact I].
+  destruct (find_valid_component_safe (S (length value)) value [] value eq_refl ltac:(slia)) as [Hs _]. cbn [blen] in Hs.
+  apply safe_bind; [exact Hs|]. intros vc _. exact I.
+Qed.
+
+Lemma parse_step_safe value : (length value <= bound)%nat -> safe (parse_step idc json_args true new value).
+Proof.
+  intros Hb. unfold parse_step.
+  apply safe_bind; [apply comp_first_safe|]. intros [|] _; [|apply parse_chain_safe; exact Hb].
+  apply safe_bind; [apply find_component_safe; exact Hb|]. intros [v|] _; [exact I | apply parse_chain_safe; exact Hb].
 Qed.
 End Step.
 
